@@ -51,8 +51,6 @@ func c22Scenarios(thorough bool) []*schedScenario {
 	scs := []*schedScenario{
 		// two hosts claim the only block of an empty pool
 		{Name: "claim-race-one-block", Cfg: one, Threads: [][]vOp{{auto("n1", "h1")}, {auto("n2", "h2")}}},
-		// two hosts whose search starts at the same block; the loser must move on to the other block
-		{Name: "claim-race-two-blocks", Cfg: two, Threads: [][]vOp{{auto(a, "h1")}, {auto(b, "h2")}}},
 		// the owner releases its (empty) block "if empty" while another client of the same host assigns from it
 		{Name: "release-if-empty-vs-assign", Cfg: one, Setup: []vOp{auto("n1", "h0"), {Kind: "rbh", Handle: "h0"}},
 			Threads: [][]vOp{{{Kind: "relhostaff", Host: "n1", MustBeEmpty: true}}, {auto("n1", "h1")}}},
@@ -64,6 +62,9 @@ func c22Scenarios(thorough bool) []*schedScenario {
 		// owner releases a non-empty block's affinity (not "if empty") while another host wants a block
 		{Name: "release-nonempty-vs-claim", Cfg: one, Setup: []vOp{auto("n1", "h0")},
 			Threads: [][]vOp{{{Kind: "relaff", Host: "n1", CIDR: "10.0.0.0/30"}}, {auto("n2", "h2")}}},
+		// (most expensive last: it inherits whatever wall budget the others left)
+		// two hosts whose search starts at the same block; the loser must move on to the other block
+		{Name: "claim-race-two-blocks", Cfg: two, Threads: [][]vOp{{auto(a, "h1")}, {auto(b, "h2")}}},
 	}
 	if thorough {
 		scs = append(scs,
